@@ -126,13 +126,6 @@ def OPCODES : List (Nat × String) := [
   (0xb3, "OP_NOP4"), (0xb4, "OP_NOP5"), (0xb5, "OP_NOP6"), (0xb6, "OP_NOP7"),
   (0xb7, "OP_NOP8"), (0xb8, "OP_NOP9"), (0xb9, "OP_NOP10"), (0xba, "OP_CHECKSIGADD")]
 
-/-- the op codes with a `case` in `EvalScript`'s switch (every other named one falls to `default: BAD_OPCODE`
-    or is disabled) -/
-def SWITCH_CASES : List Nat := [0x4f, 0x51, 0x52, 0x53, 0x54, 0x55, 0x56, 0x57, 0x58, 0x59, 0x5a, 0x5b, 0x5c, 0x5d, 0x5e, 0x5f, 0x60, 0x61, 0x63, 0x64, 0x67, 0x68, 0x69, 0x6a, 0x6b, 0x6c, 0x6d, 0x6e, 0x6f, 0x70, 0x71, 0x72, 0x73, 0x74, 0x75, 0x76, 0x77, 0x78, 0x79, 0x7a, 0x7b, 0x7c, 0x7d, 0x82, 0x87, 0x88, 0x8b, 0x8c, 0x8f, 0x90, 0x91, 0x92, 0x93, 0x94, 0x9a, 0x9b, 0x9c, 0x9d, 0x9e, 0x9f, 0xa0, 0xa1, 0xa2, 0xa3, 0xa4, 0xa5, 0xa6, 0xa7, 0xa8, 0xa9, 0xaa, 0xab, 0xac, 0xad, 0xae, 0xaf, 0xb0, 0xb1, 0xb2, 0xb3, 0xb4, 0xb5, 0xb6, 0xb7, 0xb8, 0xb9, 0xba]
-
-/-- named op codes without a case: OP_RESERVED OP_VER OP_VERIF OP_VERNOTIF OP_RESERVED1 OP_RESERVED2 -/
-def NO_CASE : List Nat := [0x50, 0x62, 0x65, 0x66, 0x89, 0x8a]
-
 /-- flag test on the bit mask -/
 def has (flags bit : Nat) : Bool := (flags / bit) % 2 == 1
 
